@@ -19,6 +19,7 @@ type Goroutine struct {
 	ready   func() bool // nil = runnable
 	frame   *Frame
 	started bool
+	harness bool // started with vfGo
 }
 
 type killed struct{}
@@ -47,6 +48,33 @@ type Sched struct {
 	points   map[string]bool // every scheduling point visited (file:line)
 	occ      map[string]int  // goroutine|point -> visits
 	switches []SchedSwitch
+	siteOcc  map[string]int
+}
+
+// goSite returns "<rel file>:<line>" of the function literal a goroutine runs, when it lies in the
+// package under test.
+func (s *Sched) goSite(fv *FuncV) string {
+	if fv == nil {
+		return ""
+	}
+	fn := fv.Fn
+	if fn == nil {
+		if w, ok := s.ex.ghost["spawnInner"].(*FuncV); ok && w != nil {
+			fn = w.Fn
+		}
+	}
+	if fn == nil || fn.Parent() == nil || !fn.Pos().IsValid() {
+		return ""
+	}
+	ps := s.ex.fset.Position(fn.Pos())
+	if !strings.HasPrefix(ps.Filename, repoDir+"/") {
+		return ""
+	}
+	rel := ps.Filename[len(repoDir)+1:]
+	if i := strings.LastIndexByte(rel, '/'); (i >= 0 && rel[:i] == s.ex.pkgRel) || (i < 0 && s.ex.pkgRel == ".") {
+		return fmt.Sprintf("%s:%d", rel, ps.Line)
+	}
+	return ""
 }
 
 // here returns the innermost position of the current goroutine that lies in the repository tree
@@ -108,9 +136,23 @@ func newSched(ex *Exec, main *Goroutine) *Sched {
 func (s *Sched) spawn(fv *FuncV, args []Value, site ssa.Instruction) {
 	g := &Goroutine{id: len(s.gs), wake: make(chan bool, 1)}
 	g.name = fmt.Sprintf("g%d", g.id)
+	named := false
 	if n, ok := s.ex.ghost["nextGoName"].(string); ok && n != "" {
 		g.name = n
+		named = true
 		s.ex.ghost["nextGoName"] = ""
+	}
+	if h, _ := s.ex.ghost["nextGoHarness"].(bool); h {
+		g.harness = true
+		s.ex.ghost["nextGoHarness"] = false
+	} else if site := s.goSite(fv); site != "" && !named {
+		// a goroutine of the code under test running a function literal: named after the literal's
+		// position and its occurrence, so that the native replay can recognise it
+		if s.siteOcc == nil {
+			s.siteOcc = map[string]int{}
+		}
+		s.siteOcc[site]++
+		g.name = fmt.Sprintf("go@%s#%d", site, s.siteOcc[site])
 	}
 	s.gs = append(s.gs, g)
 	go func() {
